@@ -13,7 +13,7 @@ from mc.checks import c07
 from mc.core.evidence import Check, digest
 from mc.core.pool import Pool, SoftTimeout, chunks
 from mc.gen import archives, chains
-from mc.lib7z import Collect, install_key_cache
+from mc.lib7z import fixed_random, Collect, install_key_cache
 from mc.ref import ref7z
 from mc.selftest import PASSWORDS, fixtures
 
@@ -62,7 +62,8 @@ def session(blob, n, mk, chain, header, password, root):
     old = os.getcwd()
     os.chdir(root)
     try:
-        with py7zr.SevenZipFile(bio, "w" if blob is None else "a", filters=filters, password=password) as z:
+        # (deterministic IVs and 'now' stamps: a history is the same bytes in every run and in every replay)
+        with fixed_random(f"c08:{n}:{mk}:{chain}:{header}"), py7zr.SevenZipFile(bio, "w" if blob is None else "a", filters=filters, password=password) as z:
             if header == "raw":
                 z.set_encoded_header_mode(False)
             elif header == "encrypted":
